@@ -645,13 +645,13 @@ class ProvRDFSerializer(Serializer):
                     if len(unique_sets[id][qname_key]) > 1:
                         formal_attributes[id][qname_key] = None
                 else:
-                    if "qualified" not in str(pred_new) and "asInBundle" not in str(
-                        pred_new
+                    if not _is_qualification(pred_new) and not _is_prov(
+                        pred_new, "asInBundle"
                     ):
                         other_attributes[id].append((str(pred_new), obj1))
             local_key = str(obj)
             if local_key in ids:
-                if "qualified" in pred:
+                if _is_qualification(pred):
                     formal_attributes[local_key][
                         list(formal_attributes[local_key].keys())[0]
                     ] = id
@@ -682,6 +682,12 @@ def _is_prov(pred, localpart):
     """True if pred (a URIRef or a QualifiedName) is the PROV term prov:<localpart>."""
     uri = pred.uri if isinstance(pred, pm.Identifier) else str(pred)
     return uri == PROV[localpart].uri
+
+
+def _is_qualification(pred):
+    """True if pred is one of PROV's qualification properties (prov:qualifiedGeneration etc.)."""
+    uri = pred.uri if isinstance(pred, pm.Identifier) else str(pred)
+    return uri.startswith(PROV["qualified"].uri)
 
 
 def walk(children, level=0, path=None, usename=True):
